@@ -1776,8 +1776,7 @@ Proof.
     apply Nat.min_id.
   - intros Hj g Hg. destruct (mapM_ok_in _ _ _ H g Hg) as ([k s] & Hin & Hf).
     apply in_combine_r in Hin.
-    destruct (map snd (filter (fun iu : nat * Q => Nat.eqb (fst iu) k)
-               (filter (fun iu : nat * Q => negb (near01 (snd iu))) (sort_by pair_le (combine idx nodes)))))
+    destruct (map snd (filter (fun iu : nat * Q => Nat.eqb (fst iu) k) (split_pairs idx nodes)))
       as [|n ns] eqn:En.
     + inversion Hf; subst. intros x [<-|[]]. apply Hj, Hin.
     + intros x Hx. eapply split_segment_ok; [apply Hj, Hin | exact Hf | exact Hx].
